@@ -449,7 +449,8 @@ Definition fuzzy_optimal (cfg : config) (hr nr : repr) (h n : list N) (start gre
   end.
 
 (* ---- exact.rs ------------------------------------------------------------------------------------ *)
-Definition max_bonus (cfg : config) : N := N.max (bonus_white cfg) (bonus_delim cfg).
+(* Config::max_bonus *)
+Definition max_bonus (cfg : config) : N := N.max (N.max (bonus_white cfg) (bonus_delim cfg)) BONUS_BOUNDARY.
 
 (* scan candidate positions in ascending order keeping the first position with the strictly best
    score; stop once the bonus cannot get better *)
